@@ -157,15 +157,32 @@ FUSED = ['c1ccc2ccccc2c1', 'c1ccc2[nH]ccc2c1', 'c1ccc2c(c1)[nH]c1ccccc12', 'c1cc
          'O=C1c2ccccc2-c2ccccc12', 'c1ccc(cc1)-c1ccccc1', 'c1ccc2c(c1)-c1cccc3cccc-2c13']
 
 
+# rings whose closure bond can be a double or triple bond (the bond symbol then sits on a ring digit)
+UNSAT_RINGS = ['C1#CCCCCCC1', 'C1=CCCCCCC1', 'N1C#CCCCCC1', 'C1CC#CCCCC1CC', 'C1=CC=CCCC1', 'O=C1C#CCCCCC1', 'C1#CCCCCCCCCCC1', 'C1CCC=CCCC1F']
+
+
+def large_span_cases(rng, n):
+    """ring closures and branches whose index Q needs two or three index symbols, at random values and around multiples of 256"""
+    out = []
+    qs = [rng.randint(16, 4090) for _ in range(n)] + [256 * k + d for k in rng.sample(range(1, 16), min(n // 3 + 1, 4)) for d in (-1, 0, 1, 15, 16)]
+    for q in qs:
+        if rng.random() < 0.5:
+            out.append('C1' + 'C' * q + 'C1')
+        else:
+            out.append('OC(' + 'C' * (q + 1) + ')N')
+    return out
+
+
 def ring_symbol_cases(rng, n):
     """aromatic ring closures that need an explicit bond symbol (declared-single fusion bonds, biaryl bonds inside rings),
     written with the symbol on the opening digit only, on the closing digit only, or at random"""
     out = []
     while len(out) < n:
-        m = mol_of(rng.choice(FUSED))
+        unsat = rng.random() < 0.25
+        m = mol_of(rng.choice(UNSAT_RINGS if unsat else FUSED))
         if m is None:
             continue
-        m2 = gen_smiles.mutate_mol(m, rng) if rng.random() < 0.7 else m
+        m2 = gen_smiles.mutate_mol(m, rng) if (rng.random() < 0.7 and not unsat) else m
         for _ in range(3):
             x, _o = gen_smiles.respell(m2, rng, ring_sym=rng.choice(['open', 'open', 'close', None]), digits_after_branches=0.2)
             out.append(x)
